@@ -234,6 +234,8 @@ Definition process_pre (cfg : srvcfg) (c : conn) (t : msg) (sc : script) : conn 
         if (0 <? length names)%nat && negb (has_bit (f_type fr) c_QTDIR) then (c, rf, PReject e_notdir, [])
         else if f_opened fr then (c, rf, PReject e_baduse, [])
         else if negb (fid =? nf) then
+          if nf =? c_NOFID then (c, rf, PReject e_unknownfid, [])
+          else
           match fidnew ft nf with
           | None => (c, rf, PReject e_inuse, [])
           | Some ft1 =>
